@@ -481,7 +481,7 @@ Theorem C17_calendar_day_count : forall y m d, (1970 <= y < 2100)%Z -> valid_dat
 Proof. exact calendar_steps. Qed.
 Print Assumptions C17_calendar_day_count.
 
-(* F117 (repaired): read through katpoint.Timestamp(<text>) - mktime of the fields minus time.timezone - the dates are UTC
+(* C17-F2 (repaired): read through katpoint.Timestamp(<text>) - mktime of the fields minus time.timezone - the dates are UTC
    only in a zone that has today the standard offset it had in 2019 ... *)
 Theorem C17_fix_rule_zone_same_offset : forall w c cmc2 cbf4k,
   legacy_rule w w c cmc2 cbf4k = utc_rule c cmc2 cbf4k /\
